@@ -147,6 +147,15 @@ def impl_variants(case):
             d.reduce_whitespace()
             out["twice"] = trees.extract(d.root)
             del held
+            # the loaders also take a tree built through the API (adjacent text nodes included): loading it with the
+            # reduce option must equal loading it without and reducing afterwards (seeded C07-7)
+            root2 = trees.build_api(case["tree"])
+            held2 = list(root2.iterate_descendants())
+            d2 = Document(root2, parser_options=ParserOptions(reduce_whitespace=True))
+            out["parser_option"] = trees.extract(d2.root)
+            d2.reduce_whitespace()
+            out["parser_option_then_reduce"] = trees.extract(d2.root)
+            del held2
     return before, out
 
 
